@@ -16,7 +16,7 @@ lines (TAB separated; bits are 0/1 strings, byte strings lower-case hex, '-' = e
   C17 arr <dtype> <isz> <bits> <chunk> <lsb0>      Array data (items + trailing bits): tobytes, tofile
         -> ok <tobytes> <tofile>
   C17 afrom <dtype> <isz> <init> <file> <n> <fk>   Array(dtype, init).fromfile(f, n); fk handle | bio | init (Array(dtype, f))
-        -> ok <data bits> | err
+        -> ok <data bits> | eof <data bits left behind when EOFError was raised> | err
   C17 art <dtype> <isz> <bits> <chunk> <fk>        Array.tofile then Array(dtype).fromfile of what was written
         -> ok <data bits> | err
   C17 big <cls> <nbits> <seed> <sink>              real chunk crossing (no hook), digest only; not run through the model
@@ -198,6 +198,22 @@ def _lsb0(f) -> bool:
     return f[1] in _LSB0_FIELD and f[_LSB0_FIELD[f[1]]] == "1"
 
 
+def _array_after(a, dt: str, isz: int) -> dict:
+    """State of an Array after fromfile: data bits, len, trailing bits, tobytes/tofile, and whether one more item can
+    be appended (it cannot when a partial item was left behind).  The append is made last, on the Array itself."""
+    ex = {"data": wire(a.data.bin), "len": len(a), "trailing": wire(a.trailing_bits.bin), "tobytes": hx(a.tobytes())}
+    sink = io.BytesIO()
+    a.tofile(sink)
+    ex["tofile"] = hx(sink.getvalue())
+    try:
+        zero = bitstring.Array(dt, Bits(length=isz))[0]          # the all-zero-bits item of this dtype
+        a.append(zero)
+        ex["append"] = "ok %d %s" % (len(a), wire(a.data.bin))
+    except Exception as e:                                       # noqa: BLE001
+        ex["append"] = "err " + type(e).__name__
+    return ex
+
+
 def execute(line: str):
     f = line.split(SEP)
     with options(lsb0=_lsb0(f)), _Files() as files:
@@ -292,6 +308,7 @@ def _execute(f, files):
         _, _, dt, isz, init, file, n, fk = f
         raw, n = unhx(file), _opt(n)
         a = _array(dt, int(isz), unwire(init))
+        tag = "ok"
         try:
             if fk == "bio":
                 src = io.BytesIO(raw)
@@ -306,13 +323,16 @@ def _execute(f, files):
                         a.fromfile(h)
                     else:
                         a.fromfile(h, n)
-            out = "ok " + wire(a.data.bin)
-            extra["len"] = len(a)
         except AssertionError:
             raise
-        except Exception as e:                                   # noqa: BLE001 (EOFError included)
-            out = "err"
+        except EOFError:                                         # raised AFTER the append: the Array is observed below
+            tag = "eof"
+        except Exception as e:                                   # noqa: BLE001
+            tag = "err"
             extra["exc"] = type(e).__name__
+        # what the Array holds after the call, on every path (success, EOFError, refusal)
+        extra.update(_array_after(a, dt, int(isz)))
+        out = "err" if tag == "err" else tag + " " + extra["data"]
         return out, extra
     if op == "art":
         _, _, dt, isz, bits, chunk, fk = f
@@ -330,6 +350,7 @@ def _execute(f, files):
                 with open(p, "rb") as h:
                     b2.fromfile(h)
             out = "ok " + wire(b2.data.bin)
+            extra.update(_array_after(b2, dt, int(isz)))
         except Exception as e:                                   # noqa: BLE001
             out = "err"
             extra["exc"] = type(e).__name__
@@ -400,6 +421,25 @@ def _obj_expected_bits(kind, data, off, ln):
     return src[w[0]:w[0] + w[1]]
 
 
+def _check_after(extra: dict, data: str, isz: int):
+    """The Array after fromfile must hold exactly `data`, and everything derived from it must agree."""
+    if extra.get("data") != wire(data):
+        return f"Array data after the call is {extra.get('data')}, expected {wire(data)}"
+    if extra.get("len") != len(data) // isz:
+        return f"len(Array) after the call is {extra.get('len')}, expected {len(data) // isz}"
+    tr = data[len(data) - len(data) % isz:] if len(data) % isz else ""
+    if extra.get("trailing") != wire(tr):
+        return f"trailing_bits after the call is {extra.get('trailing')}, expected {wire(tr)}"
+    eb = hx(_exp_bytes(data))
+    if extra.get("tobytes") != eb or extra.get("tofile") != eb:
+        return f"tobytes()/tofile after the call gave {extra.get('tobytes')} / {extra.get('tofile')}, expected {eb}"
+    if len(data) % isz == 0:
+        want = "ok %d %s" % (len(data) // isz + 1, wire(data + "0" * isz))
+        if extra.get("append") != want:
+            return f"append of one item after the call gave {extra.get('append')}, expected {want}"
+    return None
+
+
 def oracle(line: str, out: str, extra: dict):
     f = line.split(SEP)
     op = f[1]
@@ -454,24 +494,25 @@ def oracle(line: str, out: str, extra: dict):
         src = _src_bits(unhx(file))
         if n is not None and n < 0:
             return None                                          # negative counts: C15's
+        avail = len(src) // isz
         if len(init) % isz:
-            exp = "err"
-        elif n is not None and n > len(src) // isz:
-            exp = "err"
+            exp, data = "err", init                              # refused, nothing changes
         else:
-            k = len(src) // isz if n is None else n
-            exp = "ok " + wire(init + src[:k * isz])
+            k = avail if n is None else min(n, avail)            # exactly min(n, available) whole items, nothing else
+            data = init + src[:k * isz]
+            exp = ("eof " if (n is not None and n > avail) else "ok ") + wire(data)   # EOFError iff n > available
         if out != exp:
-            return f"expected {exp} (whole items from the start of the file), got {out}"
-        return None
+            return f"expected {exp} (min(n, available) whole items from the start of the file; EOFError iff n > available), got {out}"
+        return _check_after(extra, data, isz)
     if op == "art":
         _, _, dt, isz, bits, chunk, fk = f
         isz, b = int(isz), unwire(bits)
         p = b + "0" * ((-len(b)) % 8)
-        exp = "ok " + wire(p[:len(p) // isz * isz])
+        data = p[:len(p) // isz * isz]
+        exp = "ok " + wire(data)
         if out != exp:
             return f"expected {exp} (the written bytes read back as whole items), got {out}"
-        return None
+        return _check_after(extra, data, isz)
     if op == "big":
         _, _, cls, nbits, seed, sink = f
         nbits = int(nbits)
@@ -632,18 +673,39 @@ def gen(rng, tier: str):
                 yield SEP.join(["C17", "arr", rng.choice(DTYPES[isz]), str(isz), wire(bits), "-", _mode(rng)])
                 yield SEP.join(["C17", "art", rng.choice(DTYPES[isz]), str(isz), wire(bits), "-", rng.choice(["handle", "bio"])])
     # F. Array.fromfile: file sizes 0..7 (thorough ..12) bytes x every count up to one past the end x item sizes
+    def _init(isz):
+        r = rng.random()
+        if r < 0.5 or (isz == 1 and r >= 0.9):
+            return ""
+        if r < 0.9:
+            return rand_bits(rng, isz * rng.randint(1, 2))
+        return rand_bits(rng, isz + rng.randint(1, isz - 1))        # trailing bits: fromfile must refuse
     for isz in DTYPES:
         for nb in range(0, 13 if big else 8):
             mx = 8 * nb // isz
-            counts = [None] + list(range(0, min(mx, 12) + 2)) + ([mx, mx + 1] if mx > 12 else [])
+            counts = [None] + list(range(0, min(mx, 12) + 2)) + ([mx, mx + 1] if mx > 12 else []) + [mx + 7, mx + 1000]
             for n in counts:
                 for fk in ("handle", "bio"):
-                    r = rng.random()
-                    init = "" if r < 0.5 else rand_bits(rng, isz * rng.randint(1, 2)) if r < 0.9 else rand_bits(rng, isz + rng.randint(1, max(1, isz - 1)) % isz or 1)
-                    if isz == 1 and len(init) % isz:
-                        init = ""
-                    yield SEP.join(["C17", "afrom", rng.choice(DTYPES[isz]), str(isz), wire(init), hx(_rbytes(rng, nb)), str(n), fk])
+                    yield SEP.join(["C17", "afrom", rng.choice(DTYPES[isz]), str(isz), wire(_init(isz)), hx(_rbytes(rng, nb)), str(n), fk])
             yield SEP.join(["C17", "afrom", rng.choice(DTYPES[isz]), str(isz), "-", hx(_rbytes(rng, nb)), "None", "init"])
+    # F2. files of k whole items + 0 .. itemsize_bytes-1 extra bytes (a left-over partial item) x
+    #     n in {None, 0, fewer, exactly, one more, many more} x every dtype of the width (ints, floats, hex, bytes) —
+    #     both the success and the EOFError path; the Array is inspected after the call either way
+    for isz in DTYPES:
+        ib = (isz + 7) // 8
+        for k in range(0, 5 if big else 4):
+            for extra_bytes in range(0, max(ib, 2)):
+                nb = (k * isz + 7) // 8 + extra_bytes
+                avail = 8 * nb // isz
+                ns = {None, 0, avail, avail + 1, avail + 2, avail + 50}
+                if avail >= 1:
+                    ns.add(avail - 1)
+                if avail >= 2:
+                    ns.add(1)
+                for n in sorted(ns, key=lambda v: (-1 if v is None else v)):
+                    for dt in DTYPES[isz]:
+                        init = "" if rng.random() < 0.6 else rand_bits(rng, isz * rng.randint(1, 2))
+                        yield SEP.join(["C17", "afrom", dt, str(isz), wire(init), hx(_rbytes(rng, nb)), str(n), rng.choice(["handle", "bio"])])
     # G. the real chunk boundary (no hook involved): thorough always; quick only when the hook is absent
     if (big or not HOOK) and 0 < CHUNK <= (1 << 31):
         yield SEP.join(["C17", "big", rng.choice(CLASS_NAMES), str(CHUNK + 24 + 5), str(rng.randint(1, 10 ** 6)), "f"])
